@@ -594,10 +594,10 @@ pub const fn relocation_type_from_raw(r_type: u32) -> Option<RelocationKindInfo>
         ),
         object::elf::R_AARCH64_TLSLD_LD_PREL19 => (
             RelocationKind::TlsLd,
-            RelocationSize::bit_mask_aarch64(0, 21, AArch64Instruction::Ldr),
+            RelocationSize::bit_mask_aarch64(2, 21, AArch64Instruction::Ldr),
             None,
             AllowedRange::from_bit_size(21, Sign::Signed),
-            1,
+            4,
         ),
         object::elf::R_AARCH64_TLSLD_MOVW_DTPREL_G2 => (
             RelocationKind::DtpOff,
